@@ -27,14 +27,14 @@ type ClientOp struct {
 	Index     uint64 `json:"index,omitempty"`
 	Arg       string `json:"arg,omitempty"`
 
-	err         error
-	resp        any
-	ackedBefore uint64 // highest index acknowledged to anybody before invoke
-	cmdBefore   uint64 // highest committed command index known before invoke
+	err          error
+	resp         any
+	ackedBefore  uint64 // highest index acknowledged to anybody before invoke
+	cmdBefore    uint64 // highest committed command index known before invoke
 	termAtInvoke uint64
-	inst        *sim.Instance
-	orphaned    bool // the server crashed while the call was in flight: outcome unknown
-	flagged     bool
+	inst         *sim.Instance
+	orphaned     bool // the server crashed while the call was in flight: outcome unknown
+	flagged      bool
 }
 
 // Runner executes one Program.
@@ -47,29 +47,29 @@ type Runner struct {
 	maxAcked uint64
 	failed   map[uint64]string // payloads whose call definitely failed -> error
 
-	tapePos  int
-	cut      map[[2]string]bool
-	refuse   bool // cuts fail fast instead of black-holing
-	lossy    bool
-	quiet    bool
-	faults   []*faultSpec
-	Feat     map[string]int
+	tapePos     int
+	cut         map[[2]string]bool
+	refuse      bool // cuts fail fast instead of black-holing
+	lossy       bool
+	quiet       bool
+	faults      []*faultSpec
+	Feat        map[string]int
 	lastFaultMs int64
-	Log      []string
-	opts     RunOpts
-	notif    map[*sim.Instance]*notifyRec
-	isoTerm  map[string]uint64
-	stop     bool
-	ist      map[*sim.Instance]*instState
-	restores []*restoreRec
-	restoreSeq int
-	wall0    int64
-	wallBudget time.Duration
-	Aborted  string
-	leaseCuts []*leaseCut
-	isolated map[string]*isoRec
-	rejoins  []*rejoinRec
-	atRest   bool
+	Log         []string
+	opts        RunOpts
+	notif       map[*sim.Instance]*notifyRec
+	isoTerm     map[string]uint64
+	stop        bool
+	ist         map[*sim.Instance]*instState
+	restores    []*restoreRec
+	restoreSeq  int
+	wall0       int64
+	wallBudget  time.Duration
+	Aborted     string
+	leaseCuts   []*leaseCut
+	isolated    map[string]*isoRec
+	rejoins     []*rejoinRec
+	atRest      bool
 }
 
 type RunOpts struct {
@@ -537,7 +537,9 @@ func (r *Runner) judgeReturn(op *ClientOp) {
 	case "barrier":
 		if op.err == nil {
 			r.feat("barrier-ok")
-			if last := op.inst.FSM.State.LastIdx; last < op.cmdBefore {
+			// (after a user Restore the FSM holds the operator's state; only
+			// commands committed after it are comparable)
+			if last := op.inst.FSM.State.LastIdx; last < op.cmdBefore && op.cmdBefore > w.O.RestoreFloor() {
 				w.ViolateLocked("C08", "R4", "C08/R4/barrier-returned-before-fsm-caught-up", "barrier #%d on %s returned with local FSM at command index %d; command %d was committed before it was invoked", op.ID, op.Srv, last, op.cmdBefore)
 			}
 		}
@@ -551,6 +553,13 @@ func (r *Runner) judgeReturn(op *ClientOp) {
 		}
 	case "verify":
 		r.judgeVerify(op)
+	case "restore":
+		if op.err == nil {
+			w.O.RestoreConfirmed(op.Srv)
+			if b := w.O.RestoreFloor(); b > r.maxAcked {
+				r.maxAcked = b // C20/R2: later entries get indexes above the burned one
+			}
+		}
 	}
 }
 
